@@ -188,6 +188,24 @@ def scenario_segmented(rng, tier, sid):
         st['fit'] = how
         st['layout'] = rng.choice(('C', 'F', 'T', 'strided'))
         cases.append(dict(meta, rep='fit-' + how, wf=W, steps=[st, prop], thm='none'))
+    # history on a SEGMENTED plane: fit, add a second ramp per segment to the OPD, fit again - every segment's recorded tilts add up
+    # (all of a segment's fitted tilts reach the wavefront, not only the first)
+    ks2, ang2, ok2 = [], [], True
+    refit = np.zeros((m, n), dtype=int)
+    for k in range(nseg):
+        k2r, s2r = pick_k(rng, N, g['qr'], g['dyadic'], allow_int=False)
+        k2c, s2c = pick_k(rng, N, g['qc'], g['dyadic'], allow_int=False)
+        tr, tc = ss[k][0] + s2r, ss[k][1] + s2c
+        ok2 = ok2 and (tr.denominator != 1 or tr == 0) and (tc.denominator != 1 or tc == 0)
+        ang2.append(tilt_angles(g, ks[k][0] + k2r, ks[k][1] + k2c))
+        ks2.append((str(tr), str(tc)))
+        refit += segs[k] * ramp((m, n), k2r, k2c)
+    if ok2:
+        st = P(opd=base, fitted=ang2)
+        st['opd_real'] = P(opd=opd_ramp)['opd']
+        st['fit'] = 'inplace'
+        st['refit'] = refit.tolist()
+        cases.append(dict(meta, rep='refit', s=[str(x) for x in ks2], wf=W, steps=[st, prop], thm='none'))
     return cases
 
 
@@ -283,6 +301,22 @@ def dispersive_leaf(ctx, lentil, rng):
             continue
         x0, y0 = x - xs, y - ys
         n += 1
+        # the element's polynomials are replaced (same orders, other coefficients) after it has been used at this wavelength: it then
+        # displaces as a fresh element with the new polynomials does
+        trace2 = [t_ * rng.uniform(0.5, 1.5) for t_ in trace]
+        disp2 = list(disp[:-2]) + [disp[-2] * rng.uniform(0.6, 1.4), disp[-1]]
+        try:
+            el2 = lentil.DispersiveTilt(trace=trace, dispersion=disp)
+            el2.shift(wavelength=lam, xs=xs, ys=ys)
+            el2.trace, el2.dispersion = trace2, disp2
+            xn, yn = el2.shift(wavelength=lam, xs=xs, ys=ys)
+            xf, yf = lentil.DispersiveTilt(trace=trace2, dispersion=disp2).shift(wavelength=lam, xs=xs, ys=ys)
+            same = abs(float(np.squeeze(xn)) - float(np.squeeze(xf))) <= 1e-12 and abs(float(np.squeeze(yn)) - float(np.squeeze(yf))) <= 1e-12
+        except Exception as ex:
+            same = False
+        if not same:
+            ctx.violation({'kind': 'dispersive-leaf', 'trace_order': to, 'dispersion_order': do, 'clause': 'polynomials-replaced-after-use'},
+                          {'trace': trace2, 'dispersion': disp2, 'wavelength': lam}, case=None)
         # the element must be usable where it is meant to be used: in a propagation it displaces the image exactly as the angular
         # tilt with the same focal-plane displacement does (a tilt about the x axis displaces along y: Tilt(x=a, y=b) shifts by (-z b, -z a))
         zf = 2.0
